@@ -8,7 +8,7 @@ JSON of a tree node:
 Only the five boolean kinds are accepted for `mdl` leaves (`BUFFER` copies exactly the members of
 `qubovert.BOOLEAN_MODELS`; a spin model or a plain `DictArithmetic` would go through `PUBO(x)`, which
 `Qv.bufferV` does not model). -/
-namespace Qv.Drv
+namespace Qv.Drv.C07
 open Lean Qv
 
 partial def sexprOfJson (j : Json) : Except String SExpr := do
@@ -51,4 +51,4 @@ def handleSat (j : Json) : Except String Json := do
 def handlersC07 : List (String × (Lean.Json → Except String Lean.Json)) :=
   [("sat", handleSat)]
 
-end Qv.Drv
+end Qv.Drv.C07
